@@ -75,17 +75,24 @@ func (r *Restoration) Commit() {
 	r.s.eventLock.Lock()
 	defer r.s.eventLock.Unlock()
 
-	r.s.mu.Lock()
-	defer r.s.mu.Unlock()
-
-	r.s.db = r.db
-
 	// The new database starts its event index from scratch, so nothing of the
-	// old one may reach the watches opened from now on: RefreshAllTopics (unlike
-	// RefreshTopic) also discards the batches that are still queued for
+	// old one may reach the watches opened from now on: refreshing all topics
+	// (unlike RefreshTopic) also discards the batches that are still queued for
 	// publication, besides evicting the cached snapshots, dropping the topic
 	// buffers and closing the subscriptions. eventTopic is the only topic.
-	r.s.pub.RefreshAllTopics()
+	//
+	// The database is replaced from inside the refresh, under the publisher's
+	// lock: WatchList (EventPublisher.Subscribe) holds that lock while its
+	// snapshot handler takes mu.RLock, so refreshing the publisher while holding
+	// mu would deadlock against a concurrent WatchList (and with it every writer
+	// waiting for eventLock), and replacing the database before or after the
+	// refresh would let a watch be created in between that mixes the two databases.
+	r.s.pub.RefreshAllTopicsAfter(func() {
+		r.s.mu.Lock()
+		defer r.s.mu.Unlock()
+
+		r.s.db = r.db
+	})
 }
 
 // Abort the restoration. It's safe to always call this in a defer statement
